@@ -36,6 +36,7 @@ fn one_unit(u: Unit) -> Program {
         pull_params: None,
         pull_skip: 0,
         mixed_rows: 0,
+        ret_panic: false,
     }
 }
 
@@ -1065,6 +1066,7 @@ fn gen_c13_plan(r: &mut Rng, kind: u16) -> Plan {
                     pull_params: None,
                     pull_skip: 0,
                     mixed_rows: 0,
+                    ret_panic: false,
                 },
             ));
         }
@@ -1092,6 +1094,7 @@ fn gen_c13_plan(r: &mut Rng, kind: u16) -> Plan {
                     pull_params: None,
                     pull_skip: 0,
                     mixed_rows: 0,
+                    ret_panic: false,
                 },
             ));
         }
@@ -1329,6 +1332,7 @@ fn gen_c14_bulk(r: &mut Rng, t: Tier, past_u32: bool) -> Plan {
         pull_params: None,
         pull_skip: 0,
         mixed_rows: 0,
+        ret_panic: false,
     };
     let mut cmds = Vec::new();
     if r.coin() {
@@ -1422,11 +1426,20 @@ fn gen_c14(r: &mut Rng, t: Tier, job: u64) -> Plan {
             pull_params: None,
             pull_skip: 0,
             mixed_rows: 0,
+            ret_panic: false,
         };
         if prog.end == End::Implicit {
             if let Some(Unit::Rows(ru)) = prog.units.last_mut() {
                 ru.close = if r.coin() { Close::Finish } else { Close::Drop };
             }
+        }
+        if r.chance(1, 12) {
+            // the application fails in the middle of (or right behind) the response -- with an
+            // error of its own or with a panic: the completions it had reported by then were
+            // reported
+            let n = prog.units.len() as u32;
+            prog.ret_err = Some((1 + r.below(n as u64 + 1) as u32, 0xE400_0000 | r.below(1 << 20) as u32));
+            prog.ret_panic = r.coin();
         }
         if binary {
             cmds.extend(prep_exec(r, 3, vec![], prog));
@@ -1450,7 +1463,7 @@ pub fn c14() -> Simple {
         thorough: 10_000_000,
         budget_q: 60,
         budget_t: 600,
-        owns: &["ok-counts", "resp-more-flag", "resp-shape", "resp-malformed", "resp-missing", "api-call-failed", "panic", "end", "decode-myc"],
+        owns: &["ok-counts", "resp-more-flag", "resp-shape", "resp-malformed", "resp-missing", "api-call-failed", "panic", "end", "decode-myc", "early-exit-reply"],
         gen: gen_c14,
         extra: None,
         assumptions: INPUT_ASSUME,
